@@ -149,3 +149,20 @@ package db
 //@   ensures [closed] old(b.ops) == nil ==> err != nil
 //@   ensures [spent] err == nil ==> b.ops == nil
 //@   modifies *
+
+// ---------------------------------------------------------------- the iterator of a prefix view: never stands on a key of another namespace
+//
+// The iterator is valid only while the parent cursor is valid AND the parent
+// key starts with the view's prefix (a foreign key makes it invalid, with an
+// error recorded); Key strips exactly the prefix; once invalid by its own flag
+// it stays invalid.
+//@ func (*prefixDBIterator).Valid(itr) (ok)
+//@   props C18
+//@   requires itr != nil && itr.source != nil
+//@   ensures [needs-flag] ok ==> old(itr.valid) && old(itr.err) == nil && itvalid[itr.source]
+//@   ensures [latch] !old(itr.valid) ==> !ok
+//@   ensures [flag-kept] itr.valid == old(itr.valid)
+//@   modifies itr.err
+
+//@ func (*prefixDBIterator).Close(itr) (err)
+//@   summary
